@@ -3390,9 +3390,17 @@ pub fn initialize(env: &mut Env) {
         "≥",
     );
     env.insert_builtin(Divide);
-    env.insert_builtin(TwoNumsToNumsBuiltin {
+    env.insert_builtin(TwoNumsBuiltin {
         name: "%".to_string(),
-        body: |a, b| a % b,
+        body: |a, b| {
+            // an exact remainder by zero has no value (float operands keep their IEEE NaN)
+            let exact = |x: &NNum| matches!(x, NNum::Int(_) | NNum::Rational(_));
+            if !b.is_nonzero() && exact(&a) && exact(&b) {
+                Err(NErr::value_error("division by zero".to_string()))
+            } else {
+                Ok(Obj::Num(a % b))
+            }
+        },
     });
     env.insert_builtin(TwoNumsBuiltin {
         name: "//".to_string(),
